@@ -2,6 +2,7 @@ package gvc
 
 import (
 	"flag"
+	"runtime/pprof"
 	"fmt"
 	"os"
 	"path/filepath"
@@ -36,6 +37,13 @@ func Main(args []string) int {
 	}
 	if d := os.Getenv("GVC_VERIF"); d != "" {
 		VerifDir = d
+	}
+	if pf := os.Getenv("GVC_PROFILE"); pf != "" {
+		f, err := os.Create(pf)
+		if err == nil {
+			pprof.StartCPUProfile(f)
+			defer pprof.StopCPUProfile()
+		}
 	}
 	switch args[0] {
 	case "dump":
